@@ -136,6 +136,10 @@ Section AOSpec.
   Definition minimal (c : lcall) (l : list lcall) : bool :=
     forallb (fun d => negb (Nat.ltb (lc_ret d) (lc_inv c))) l.
 
+  (* (vm_compute is call-by-value: the search uses if-then-else, not && / ||, to stay lazy) *)
+  Fixpoint first_ok {A} (f : A -> bool) (l : list A) : bool :=
+    match l with [] => false | a :: r => if f a then true else first_ok f r end.
+
   Fixpoint lin (fuel : nat) (ob : Ob) (l : list lcall) : bool :=
     match l with
     | [] => true
@@ -143,14 +147,15 @@ Section AOSpec.
         match fuel with
         | O => false
         | S f =>
-            existsb (fun ic : nat * lcall =>
-                       let (i, c) := ic in
-                       minimal c l &&
-                       match sstep ob (lc_t c) (lc_op c) with
-                       | Some (ob', r) => Nat.eqb r (lc_res c) && lin f ob' (remove_nth i l)
-                       | None => false
-                       end)
-                    (combine (seq 0 (List.length l)) l)
+            first_ok (fun ic : nat * lcall =>
+                        let (i, c) := ic in
+                        if minimal c l then
+                          match sstep ob (lc_t c) (lc_op c) with
+                          | Some (ob', r) => if Nat.eqb r (lc_res c) then lin f ob' (remove_nth i l) else false
+                          | None => false
+                          end
+                        else false)
+                     (combine (seq 0 (List.length l)) l)
         end
     end.
 End AOSpec.
